@@ -103,7 +103,7 @@ def destination_agreement(ctx, P, views, iters):
             ctx.unrecognised("DEST: reroute not found")
         else:
             cls, fn = r
-            w = Walker(P, view, keep=lambda e: e.kind == "call" and e.d["meth"] in ("write_interruption_record", "release"), inline=lambda ev: False, loop_iters=iters)
+            w = Walker(P, view, keep=lambda e: e.kind == "call" and e.d["meth"] in ("write_interruption_record", "release"), inline=rules.new_helper, loop_iters=iters)
             for st in w.paths_of(cls, fn):
                 rec = [e for e in st.events if e.d["meth"] == "write_interruption_record"]
                 rel = [e for e in st.events if e.d["meth"] == "release"]
@@ -148,7 +148,7 @@ def destination_writers(ctx, P, views, iters):
                     return e.d["target"].endswith(".destination") and e.d["value"] == "False"
                 lo = listop(e) if e.kind == "call" else None
                 return bool(lo and lo[2] == "blocked_queue" and lo[0] == "rem")
-            w = Walker(P, view, keep=keep, inline=lambda ev: False, loop_iters=iters)
+            w = Walker(P, view, keep=keep, inline=rules.new_helper, loop_iters=iters)
             for st in w.paths_of(cls, fn):
                 if any(e.kind == "assign" for e in st.events):
                     ob.ok("%s.%s:clear" % (cls.name, m))
